@@ -298,7 +298,7 @@ def minimise(check, case, bucket, max_runs=250, max_seconds=40):
                 cur = _get(best, path)
             except (KeyError, IndexError, TypeError):
                 continue
-            if kind == 'list' and len(cur) > 0:
+            if kind == 'list' and isinstance(cur, list) and len(cur) > 0:
                 chunk = max(1, len(cur) // 2)
                 while chunk >= 1:
                     pos = 0
@@ -313,7 +313,7 @@ def minimise(check, case, bucket, max_runs=250, max_seconds=40):
                         else:
                             pos += chunk
                     chunk //= 2
-            elif kind == 'int' and isinstance(cur, int) and cur not in (0, 1):
+            elif kind == 'int' and isinstance(cur, int) and not isinstance(cur, bool) and cur not in (0, 1):
                 for cand_val in (0, 1, cur // 2):
                     if cand_val == cur:
                         continue
@@ -323,7 +323,7 @@ def minimise(check, case, bucket, max_runs=250, max_seconds=40):
                         best = cand
                         improved = True
                         break
-            elif kind == 'str' and len(cur) >= 4 and all(c in '0123456789abcdef' for c in cur) and len(cur) % 2 == 0:
+            elif kind == 'str' and isinstance(cur, str) and len(cur) >= 4 and all(c in '0123456789abcdef' for c in cur) and len(cur) % 2 == 0:
                 half = (len(cur) // 4) * 2
                 for cand_val in (cur[:half], cur[half:]):
                     cand = copy.deepcopy(best)
